@@ -72,6 +72,7 @@ type chunkReader struct {
 	b    []byte
 	prog []byte
 	i    int
+	big  bool // chunk sizes up to 4096 bytes instead of 17
 }
 
 func (r *chunkReader) Read(p []byte) (int, error) {
@@ -81,6 +82,9 @@ func (r *chunkReader) Read(p []byte) (int, error) {
 	n := 1
 	if len(r.prog) > 0 {
 		n = int(r.prog[r.i%len(r.prog)])%17 + 1
+		if r.big {
+			n = (int(r.prog[r.i%len(r.prog)])*17)%4096 + 1
+		}
 		r.i++
 	}
 	if n > len(p) {
@@ -370,6 +374,39 @@ var entries = []entry{
 				n := z.ShiftLen()
 				d.add("%q", z.Shift())
 				z.Free(n)
+			}
+		}
+		d.add("%q %s", z.Shift(), errText(z.Err()))
+		return d.String()
+	}},
+	{"buffer.StreamLexer(default size)", "buffer", "any", func(in, prog []byte) string {
+		// the default block size with Free lagging two tokens behind Shift, over inputs that may span several blocks
+		d := &digest{}
+		z := buffer.NewStreamLexer(&chunkReader{b: cp(in), prog: append([]byte{255, 254}, prog...), big: true})
+		var pending []int
+		var held [][]byte
+		var heldCopy []string
+		for steps := 0; steps < 3*len(in)+10; steps++ {
+			c := z.Peek(0)
+			if c == 0 && z.Err() != nil {
+				break
+			}
+			z.Move(1)
+			if c == ' ' || c == '\n' || c == ';' || c == ',' || c == '>' || steps%61 == 60 {
+				n := z.ShiftLen()
+				tok := z.Shift()
+				d.add("%q", tok)
+				held, heldCopy = append(held, tok), append(heldCopy, string(tok))
+				pending = append(pending, n)
+				if len(pending) > 2 {
+					z.Free(pending[0])
+					pending, held, heldCopy = pending[1:], held[1:], heldCopy[1:]
+				}
+				for i := range held {
+					if string(held[i]) != heldCopy[i] {
+						d.add("HELD TOKEN CHANGED %q -> %q", heldCopy[i], held[i])
+					}
+				}
 			}
 		}
 		d.add("%q %s", z.Shift(), errText(z.Err()))
